@@ -135,11 +135,10 @@ class ReadCd(SCSICommand):
             EXPECTED_SECTOR_TYPE.MODE_2_FORMLESS,
         ]:
             mcsb = 0x30
-        if mcsb == 0x78 and est in [
-            EXPECTED_SECTOR_TYPE.MODE_1,
-            EXPECTED_SECTOR_TYPE.MODE_2_FORMLESS,
-        ]:
+        if mcsb == 0x78 and est == EXPECTED_SECTOR_TYPE.MODE_1:
             mcsb = 0x38
+        if mcsb == 0x78 and est == EXPECTED_SECTOR_TYPE.MODE_2_FORMLESS:
+            mcsb = 0x30
         if mcsb == 0xE0 and est in [
             EXPECTED_SECTOR_TYPE.MODE_1,
             EXPECTED_SECTOR_TYPE.MODE_2_FORMLESS,
